@@ -650,6 +650,8 @@ pub fn plan(property: &str, tier: &str) -> Option<CheckSpec> {
             let n1 = b.add_gen(&g, if quick { 1 } else { 2 }, &[false], &rules, 3_000_000);
             // spans and local spans that stay open for more than a second
             b.add_batch(long_span_programs(), false, false, &rules);
+            // captured sets with local spans still open at collect(), converted and pushed
+            b.add_batch(late_push_programs().into_iter().map(|p| p.collector(1, true, 0)).collect(), false, false, &rules);
             rule_text = format!("{n1} generated programs with a 150us busy-wait before every operation and harness-side clock brackets around every operation, x collector cycles anywhere");
             bound_text = format!("<= 2 spans, <= 3 local spans, nesting <= 3, <= {} operations", g.max_len);
             assumptions.push("the clock itself is not enumerated (it never influences control flow); durations are compared with harness-side monotonic brackets (tolerance 30us + 0.2%), begin times with wall-clock brackets +-10ms".into());
